@@ -6,9 +6,11 @@ Open Scope N_scope.
 Definition contains (x s : string) : Prop := exists pre post, s = pre ++ x ++ post.
 Definition starts_with (x s : string) : Prop := exists post, s = x ++ post.
 
-(* one argument: its Debug text, or `?` when the declared type gives rustc no Debug impl *)
+(* one argument: its Debug text, or `?` when the declared type gives rustc no Debug impl; a `&mut L<'a>` argument
+   never enters the mock (its Inputs component is the documented `Impossible` placeholder) and is shown as that
+   placeholder -- still one entry, at its own position *)
 Definition spec_arg (t : pty) (v : value) : string :=
-  if knows_debug t then fmt_debug v else "?".
+  if knows_debug t then fmt_debug (input_value t v) else "?".
 
 Fixpoint spec_args (ts : list pty) (vs : list value) : list string :=
   match ts, vs with
